@@ -2,5 +2,8 @@
 //! `Display` can influence a verdict; conversions are exhaustive matches.
 pub mod civil;
 pub mod eval;
+pub mod grammar;
+pub mod lex;
+pub mod literal;
 pub mod re;
 pub mod rv;
